@@ -161,6 +161,14 @@ Theorem C11_a_key_has_phrases_iff_inserted : forall es k, phrases_for es k <> No
 Proof. exact phrases_for_some. Qed.
 Print Assumptions C11_a_key_has_phrases_iff_inserted.
 
+(* "a re-inserted phrase replaces the earlier one": p is held under k exactly when (k, p) is an entry of the list and no
+   LATER entry has the same syllables and the same string *)
+Theorem C11_a_reinserted_phrase_replaces_the_earlier_one : forall es k p,
+  (exists ps, phrases_for es k = Some ps /\ In p ps) <->
+  exists es1 es2, es = es1 ++ (k, p) :: es2 /\ Forall (fun e => ~ (fst e = k /\ p_str (snd e) = p_str p)) es2.
+Proof. exact phrases_for_last. Qed.
+Print Assumptions C11_a_reinserted_phrase_replaces_the_earlier_one.
+
 (* EXACT lookup on the file written for ANY list of entries (within the format's capacities), any query, any
    `first`: exactly the phrases inserted under that syllable sequence with their frequencies and timestamps, in leaf
    order, cut to `first`; nothing for a sequence that was not inserted *)
